@@ -55,6 +55,9 @@ def items_by_line(blk, nfiles):
             m = re.search(r" tok=([0-9a-f-]+):(\S+)$", l)
             loc = parse_loc(m.group(2))
             desc = "NODE " + re.sub(r"\d+:\d+:\d+-\d+:\d+:\d+@\w+", "@", l.split(" ", 2)[2])
+            # a data directive's operand list runs across newlines: the newline tokens it looked at
+            # are part of its raw text. How many follow it is not a property of the directive.
+            desc = re.sub(r"( tok=[0-9a-f]*?)((?:20|0a|0d|09)+)(:@)$", r"\1\3", desc)
         elif l.startswith("PERR"):
             m = RANGE.search(l)
             if not m:
@@ -76,7 +79,7 @@ def meaningful(line):
 def run(res, tier, seed):
     rng = random.Random(seed)
     proof_ok = proof_stage(res, "Rva.Proofs.C07", THEOREMS)
-    n = 120 if tier == "quick" else 1500
+    n = 120 if tier == "quick" else 12000
     inputs, meta = [], []
     for _ in range(n):
         lines = one_per_line(rng, rng.randrange(3, 14))
@@ -84,6 +87,18 @@ def run(res, tier, seed):
         bad = rng.choice(BAD_LINES) if rng.random() < 0.8 else asm.mangle(rng, asm.statement(rng))
         if "\n" in bad:
             bad = bad.replace("\n", " ")
+        # a line that starts with an immediate (number, character literal) right after a data
+        # directive is, by the documented multi-line operand lists, one more operand of that
+        # directive and not a statement of its own: do not put one there
+        def data_before(pos):
+            for q in range(pos - 1, -1, -1):
+                t = lines[q].strip()
+                if t == "" or t.startswith("#"):
+                    continue
+                return re.match(r"\.(word|byte|half|dword|float|double)\b", t) is not None
+            return False
+        if re.match(r"\s*['\-+0-9]", bad) and data_before(k):
+            bad = "add t0, t1"
         with_bad = lines[:k] + [bad] + lines[k:]
         crlf = rng.random() < 0.1
         nl = "\r\n" if crlf else "\n"
